@@ -585,3 +585,64 @@ def log_rule(repo: Repo, rep, prop: str, rule: str):
             probs += log_argument_problems(repo, fi)
     rep.check(not probs, rule, '%s:log-arguments' % '+'.join(MEMO_SCOPE[prop]), '', '%d functions, %d log statements' % (n_f, n_l),
               '; '.join(sorted(set(probs))[:6]))
+
+
+# command-set backed numeric fields for which 0 is a legal, distinct value (PS3.7: message ids are 16-bit unsigned; status 0000H
+# is Success; priority 0000H is MEDIUM; sub-operation counts reach 0)
+ZERO_IS_A_VALUE = ('message_id', 'message_id_being_responded_to', 'move_originator_message_id', 'status', 'priority',
+                   'num_of_remaining_sub_ops', 'num_of_completed_sub_ops', 'num_of_failed_sub_ops', 'num_of_warning_sub_ops')
+
+
+def zero_as_missing(repo: Repo, fi: FuncInfo) -> List[str]:
+    """truth tests of a numeric DIMSE field: ``if not msg.message_id`` treats the legal value 0 like an absent field"""
+    probs: List[str] = []
+
+    def field_of(e) -> Optional[str]:
+        if isinstance(e, ast.Attribute) and e.attr in ZERO_IS_A_VALUE and isinstance(e.ctx, ast.Load):
+            return norm(e)
+        if isinstance(e, ast.Call) and isinstance(e.func, ast.Name) and e.func.id == 'getattr' and len(e.args) >= 2 \
+                and isinstance(e.args[1], ast.Constant) and e.args[1].value in ZERO_IS_A_VALUE:
+            return '%s.%s' % (norm(e.args[0]), e.args[1].value)
+        return None
+
+    def truth(e, line):
+        """``e`` is evaluated for its truth"""
+        while isinstance(e, ast.UnaryOp) and isinstance(e.op, ast.Not):
+            e = e.operand
+        if isinstance(e, ast.BoolOp):
+            for v in e.values:
+                truth(v, line)
+            return
+        if isinstance(e, ast.Call) and isinstance(e.func, ast.Name) and e.func.id == 'bool' and len(e.args) == 1:
+            truth(e.args[0], line)
+            return
+        f = field_of(e)
+        if f is not None:
+            probs.append('%s line %d: %s is tested for truth: the legal value 0 is treated like a missing field' % (fi.key, line, f))
+    for n in ast.walk(fi.node):
+        if isinstance(n, (ast.If, ast.While, ast.IfExp, ast.Assert)):
+            truth(n.test, getattr(n, 'lineno', 0))
+        elif isinstance(n, ast.comprehension):
+            for c in n.ifs:
+                truth(c, getattr(c, 'lineno', 0))
+        elif isinstance(n, ast.BoolOp):
+            # ``a or b`` as a value: every operand but the last is tested
+            for v in n.values[:-1]:
+                truth(v, getattr(n, 'lineno', 0))
+        elif isinstance(n, ast.UnaryOp) and isinstance(n.op, ast.Not):
+            truth(n.operand, getattr(n, 'lineno', 0))
+    return sorted(set(probs))
+
+
+def zero_rule(repo: Repo, rep, prop: str, rule: str):
+    rep.rule(rule, 'a numeric DIMSE field whose value may legally be 0 (message ids, status, priority, sub-operation counts) is never '
+             'tested for truth: "missing" is ``is None`` / ``== \'\'``, 0 is a value (Message ID 0 is a legal id; status 0000H is Success)', 1)
+    probs = []
+    n_f = 0
+    for modname in MEMO_SCOPE[prop]:
+        for fi in repo.all_functions():
+            if fi.module.name == modname:
+                n_f += 1
+                probs += zero_as_missing(repo, fi)
+    rep.check(not probs, rule, '%s:zero-is-a-value' % '+'.join(MEMO_SCOPE[prop]), '', '%d functions, no truth test of such a field' % n_f,
+              '; '.join(sorted(set(probs))[:6]))
